@@ -123,7 +123,7 @@ def _shard_tensors(
     for tensor in tensors:
         tensor_size = tensor.nbytes
         # Check if adding this tensor would exceed max_shard_size_bytes
-        if current_shard_size + tensor_size > max_shard_size_bytes and current_shard_size > 0:
+        if current_shard_size + tensor_size > max_shard_size_bytes and shards[-1]:
             # Start a new shard
             shards.append([])
             current_shard_size = 0
